@@ -364,6 +364,13 @@ def run_one(world, run, bytecode, stats):
                     if k == "import":
                         importlib.import_module(target)
                     elif k == "reload":
+                        parents = [".".join(target.split(".")[:j]) for j in range(1, target.count(".") + 1)]
+                        if target in sys.modules and any(p_ not in sys.modules for p_ in parents):
+                            # residue of an import that failed earlier in this run (a source was broken then): CPython removes
+                            # the failed package from sys.modules but keeps the sub-modules it had already loaded; reloading one
+                            # of those raises "parent not in sys.modules" with or without jaxtyping
+                            stats.inc("reload_skipped_parent_not_loaded")
+                            continue
                         if target in sys.modules:
                             importlib.reload(sys.modules[target])
                             before.discard(target)
